@@ -94,7 +94,6 @@ Lemma kh_ks : k_h <> k_s. Proof. discriminate. Qed.
 Definition op_keeps (o : scr) : bool :=
   match o with
   | Oset k _ | Oerase k | Oexpose k | Ohide k => negb (reserved k)
-  | Oclear => false         (* clear() drops _t/_h/_s but keeps timeout_val_/how_/on_server_: see docs, settings-lost-by-clear *)
   | _ => true
   end.
 
@@ -109,7 +108,8 @@ Proof.
   - apply negb_true_iff in Hp. destruct (not_reserved _ Hp) as (N1 & N2 & N3).
     split; [apply ssorted_dremove; exact Hs|].
     rewrite !special_other_remove by congruence. split; [exact Ht|]. split; [exact Hh|]. exists sv. split; assumption.
-  - discriminate Hp.
+  - (* clear(): no entries left, settings back to the defaults *)
+    split; [exact I|]. split; [reflexivity|]. split; [reflexivity|]. exists 0%Z. split; reflexivity.
   - apply negb_true_iff in Hp. destruct (not_reserved _ Hp) as (N1 & N2 & N3).
     split; [apply ssorted_d_expose; exact Hs|].
     rewrite !special_other_expose by congruence. split; [exact Ht|]. split; [exact Hh|]. exists sv. split; assumption.
